@@ -1,9 +1,537 @@
 package main
 
 import (
-	_ "golang.org/x/tools/go/packages"
-	_ "golang.org/x/tools/go/ssa"
-	_ "golang.org/x/tools/go/ssa/ssautil"
+	"encoding/json"
+	"flag"
+	"fmt"
+	"os"
+	"path/filepath"
+	"regexp"
+	"runtime/debug"
+	"sort"
+	"strconv"
+	"strings"
+	"time"
+
+	"golang.org/x/tools/go/ssa"
 )
 
-func main() {}
+type KnownFinding struct {
+	Property   string `json:"property"`
+	Obligation string `json:"obligation"`
+	Status     string `json:"status"` // known | fixed
+	What       string `json:"what"`
+	Commit     string `json:"commit,omitempty"`
+	ID         string `json:"id,omitempty"`
+}
+
+type options struct {
+	prop     string
+	tier     string
+	repo     string
+	verif    string
+	only     string
+	keep     bool
+	verbose  bool
+	seed     int
+	workers  int
+	baseline bool
+	dumpFn   string
+}
+
+func main() {
+	debug.SetGCPercent(400)
+	if len(os.Args) < 2 {
+		fmt.Fprintln(os.Stderr, "usage: govc check|baseline|list|replay ...")
+		os.Exit(2)
+	}
+	cmd := os.Args[1]
+	fs := flag.NewFlagSet(cmd, flag.ExitOnError)
+	var o options
+	fs.StringVar(&o.prop, "property", "", "property id")
+	fs.StringVar(&o.tier, "tier", "quick", "quick|thorough")
+	fs.StringVar(&o.repo, "repo", "/repo", "repository")
+	fs.StringVar(&o.verif, "verif", "/verif", "verif dir")
+	fs.StringVar(&o.only, "only", "", "regexp on unit names (debug)")
+	fs.BoolVar(&o.keep, "keep", false, "keep SMT files")
+	fs.BoolVar(&o.verbose, "v", false, "verbose")
+	fs.IntVar(&o.workers, "workers", 12, "parallel solver jobs")
+	fs.Parse(os.Args[2:])
+	if t := os.Getenv("VERIF_TIER"); t != "" && cmd == "check" {
+		o.tier = t
+	}
+	if s := os.Getenv("VERIF_SEED"); s != "" {
+		o.seed, _ = strconv.Atoi(s)
+	}
+	switch cmd {
+	case "check":
+		os.Exit(runCheck(&o))
+	case "baseline":
+		o.baseline = true
+		os.Exit(runCheck(&o))
+	case "replay":
+		os.Exit(runReplay(&o, fs.Args()))
+	default:
+		fmt.Fprintln(os.Stderr, "unknown command", cmd)
+		os.Exit(2)
+	}
+}
+
+type oblReport struct {
+	Name   string  `json:"name"`
+	Kind   string  `json:"kind"`
+	Unit   string  `json:"unit"`
+	Pos    string  `json:"pos"`
+	Text   string  `json:"clause"`
+	Result string  `json:"result"`
+	Solver string  `json:"solver"`
+	Time   float64 `json:"solver_s"`
+	Size   int     `json:"smt_bytes"`
+	Status string  `json:"status"`
+}
+
+func loadKnown(verif string) []KnownFinding {
+	var kf []KnownFinding
+	b, err := os.ReadFile(filepath.Join(verif, "known_findings.json"))
+	if err != nil {
+		return nil
+	}
+	if err := json.Unmarshal(b, &kf); err != nil {
+		fmt.Fprintln(os.Stderr, "known_findings.json:", err)
+	}
+	return kf
+}
+
+func loadBaseline(verif, prop string) (map[string]bool, bool) {
+	b, err := os.ReadFile(filepath.Join(verif, "specs", "baseline", prop+".txt"))
+	if err != nil {
+		return map[string]bool{}, false
+	}
+	m := map[string]bool{}
+	for _, l := range strings.Split(string(b), "\n") {
+		l = strings.TrimSpace(l)
+		if l != "" && !strings.HasPrefix(l, "#") {
+			m[l] = true
+		}
+	}
+	return m, true
+}
+
+func runCheck(o *options) int {
+	t0 := time.Now()
+	if o.prop == "" {
+		fmt.Fprintln(os.Stderr, "--property required")
+		return 2
+	}
+	p, err := loadProg(o.repo, []string{"./..."})
+	if err != nil {
+		// the tree does not load (e.g. does not compile): the check cannot run
+		fmt.Fprintln(os.Stderr, "BROKEN: cannot load repository:", err)
+		return 2
+	}
+	p.buildEffects()
+	db, err := loadContracts(p, filepath.Join(o.verif, "specs"))
+	if err != nil {
+		fmt.Fprintln(os.Stderr, "BROKEN: contracts:", err)
+		return 2
+	}
+	tLoad := time.Since(t0).Seconds()
+	var onlyRE *regexp.Regexp
+	if o.only != "" {
+		onlyRE = regexp.MustCompile(o.only)
+	}
+	hasProp := func(ps []string) bool {
+		for _, x := range ps {
+			if x == o.prop {
+				return true
+			}
+		}
+		return false
+	}
+	var units []*Unit
+	engineErr := ""
+	gen := func(name string, f func() *Unit) {
+		if onlyRE != nil && !onlyRE.MatchString(name) {
+			return
+		}
+		defer func() {
+			if r := recover(); r != nil {
+				engineErr += fmt.Sprintf("engine panic in %s: %v\n%s\n", name, r, debug.Stack())
+			}
+		}()
+		u := f()
+		units = append(units, u)
+	}
+	funcUnits := map[*ssa.Function]bool{}
+	for _, fc := range db.FuncList {
+		if fc.Extern || !hasProp(fc.Props) {
+			continue
+		}
+		fc := fc
+		if fc.Fn != nil {
+			funcUnits[fc.Fn] = true
+		}
+		gen(shortKey(fc.Key), func() *Unit { return verifyFunc(p, db, fc, o.prop) })
+	}
+	for _, lm := range db.Lemmas {
+		if !hasProp(lm.Props) {
+			continue
+		}
+		lm := lm
+		gen("lemma:"+lm.Name, func() *Unit { return verifyLemma(p, db, lm, o.prop) })
+	}
+	covered := map[string]bool{}
+	for _, u := range units {
+		for _, c := range u.Callsites {
+			covered[c] = true
+		}
+	}
+	targets := sweepTargets(p, db, o.prop)
+	// top-level functions first, closures afterwards (only if their call sites were not reached
+	// through an inlined direct call in the parent)
+	var closures []*ssa.Function
+	for _, fn := range targets {
+		if funcUnits[fn] {
+			continue
+		}
+		if fn.Parent() != nil {
+			closures = append(closures, fn)
+			continue
+		}
+		fn := fn
+		gen(shortFn(fn), func() *Unit { return sweepFunc(p, db, fn, o.prop) })
+	}
+	for _, u := range units {
+		for _, c := range u.Callsites {
+			covered[c] = true
+		}
+	}
+	for _, fn := range closures {
+		fn := fn
+		if closureCovered(p, db, fn, o.prop, covered) {
+			continue
+		}
+		gen(shortFn(fn), func() *Unit { return sweepFunc(p, db, fn, o.prop) })
+	}
+	tGen := time.Since(t0).Seconds() - tLoad
+
+	work := filepath.Join(o.verif, "work", fmt.Sprintf("%s-%d", o.prop, os.Getpid()))
+	os.MkdirAll(work, 0o755)
+	if !o.keep {
+		defer os.RemoveAll(work)
+	}
+	solveAll(units, work, o.tier, o.seed, o.workers)
+	tSolve := time.Since(t0).Seconds() - tLoad - tGen
+
+	known := loadKnown(o.verif)
+	baseline, haveBaseline := loadBaseline(o.verif, o.prop)
+	return report(o, p, db, units, known, baseline, haveBaseline, engineErr, tLoad, tGen, tSolve, t0)
+}
+
+// closureCovered: every matching call site of the closure was already reached while its parent
+// was executed (the closure was inlined at a direct call).
+func closureCovered(p *Prog, db *ContractDB, fn *ssa.Function, prop string, covered map[string]bool) bool {
+	x := newExec(p, db)
+	all := true
+	any := false
+	for _, b := range fn.Blocks {
+		for _, ins := range b.Instrs {
+			ci, ok := ins.(ssa.CallInstruction)
+			if !ok {
+				continue
+			}
+			k, _, ok := x.staticCalleeKey(ci.Common())
+			if !ok {
+				continue
+			}
+			for _, cc := range db.Callsites {
+				if cc.Key != k {
+					continue
+				}
+				nm := cc.Name
+				if nm == "" {
+					nm = shortKey(cc.Key)
+				}
+				any = true
+				if !covered[fmt.Sprintf("%s at %s", nm, p.pos(ci.Pos()))] {
+					all = false
+				}
+			}
+		}
+	}
+	return any && all
+}
+
+func report(o *options, p *Prog, db *ContractDB, units []*Unit, known []KnownFinding, baseline map[string]bool, haveBaseline bool,
+	engineErr string, tLoad, tGen, tSolve float64, t0 time.Time) int {
+	knownMap := map[string]KnownFinding{}
+	for _, k := range known {
+		if k.Property == o.prop && k.Status == "known" {
+			knownMap[k.Obligation] = k
+		}
+	}
+	var reports []oblReport
+	var violations, knownHits, broken []string
+	nObl, nDis, nVac := 0, 0, 0
+	byBackend := map[string]int{}
+	solverTime := 0.0
+	seen := map[string]bool{}
+	var funcs, assumptions, unsupported, externs, contracts, inlined, callsites []string
+	replayDir := filepath.Join(o.verif, "replay", o.prop)
+	var discharged []string
+	for _, u := range units {
+		funcs = append(funcs, u.Kind+" "+u.Name)
+		assumptions = append(assumptions, u.Assumptions...)
+		externs = append(externs, u.UsedExterns...)
+		contracts = append(contracts, u.UsedContracts...)
+		inlined = append(inlined, u.Inlined...)
+		callsites = append(callsites, u.Callsites...)
+		for _, s := range u.Unsupported {
+			unsupported = append(unsupported, u.Name+": "+s)
+			if strings.HasPrefix(s, "spec:") {
+				broken = append(broken, fmt.Sprintf("%s: %s", u.Name, s))
+			}
+		}
+		if u.Err != "" {
+			broken = append(broken, u.Name+": "+u.Err)
+		}
+		for _, ob := range u.Obls {
+			seen[ob.Name] = true
+			r := oblReport{Name: ob.Name, Kind: ob.Kind, Unit: u.Name, Pos: ob.Pos, Text: ob.Text, Result: ob.Result, Solver: ob.Solver, Time: ob.Time, Size: ob.SMTSize}
+			solverTime += ob.Time
+			if ob.MustSat {
+				nVac++
+				switch ob.Result {
+				case "sat":
+					r.Status = "vacuity-ok"
+				case "unsat":
+					r.Status = "VACUOUS"
+					broken = append(broken, fmt.Sprintf("vacuity probe %s is unsat: the contract's assumptions are contradictory", ob.Name))
+				default:
+					r.Status = "vacuity-undecided"
+				}
+				reports = append(reports, r)
+				continue
+			}
+			nObl++
+			switch {
+			case ob.Result == "unsat":
+				nDis++
+				byBackend[ob.Solver]++
+				r.Status = "discharged"
+				discharged = append(discharged, ob.Name)
+			case ob.Result == "disagree":
+				r.Status = "SOLVERS-DISAGREE"
+				broken = append(broken, fmt.Sprintf("%s: %s", ob.Name, ob.Output))
+			default:
+				if kf, ok := knownMap[ob.Name]; ok {
+					r.Status = "known-finding"
+					knownHits = append(knownHits, fmt.Sprintf("KNOWN-FINDING: property=%s %s [%s] (%s)", o.prop, kf.What, ob.Name, ob.Result))
+				} else if !haveBaseline || baseline[ob.Name] || autoKind(ob.Kind) {
+					r.Status = "VIOLATION"
+					path := writeReplay(replayDir, o, u, ob)
+					suffix := ""
+					replayed := tryReplay(o, p, u, ob, path)
+					if !replayed {
+						suffix = " no-failing-input-found"
+					}
+					violations = append(violations, fmt.Sprintf("VIOLATION property=%s replay=%s obligation=%s result=%s%s", o.prop, path, ob.Name, ob.Result, suffix))
+				} else {
+					r.Status = "unproven-unclaimed"
+				}
+			}
+			reports = append(reports, r)
+		}
+	}
+	// baseline obligations of hand-written kinds that vanished
+	if haveBaseline && o.only == "" {
+		var missing []string
+		for name := range baseline {
+			if !seen[name] && handKind(name) {
+				missing = append(missing, name)
+			}
+		}
+		sort.Strings(missing)
+		for _, name := range missing {
+			if _, ok := knownMap[name]; ok {
+				continue
+			}
+			ob := &Obl{Name: name, Kind: "contract-shape", Result: "missing", Output: "the obligation was discharged on the baseline tree and is no longer generated (function, loop or clause vanished)"}
+			path := writeReplay(replayDir, o, &Unit{Name: "?"}, ob)
+			violations = append(violations, fmt.Sprintf("VIOLATION property=%s replay=%s obligation=%s result=missing no-failing-input-found", o.prop, path, name))
+			reports = append(reports, oblReport{Name: name, Kind: "contract-shape", Result: "missing", Status: "VIOLATION"})
+			nObl++
+		}
+	}
+	if engineErr != "" {
+		broken = append(broken, engineErr)
+	}
+	if nObl == 0 {
+		broken = append(broken, "no obligations generated (vacuous check)")
+	}
+	if o.baseline {
+		sort.Strings(discharged)
+		dir := filepath.Join(o.verif, "specs", "baseline")
+		os.MkdirAll(dir, 0o755)
+		os.WriteFile(filepath.Join(dir, o.prop+".txt"), []byte("# obligations discharged on the unchanged tree (written by `govc baseline`, never at check time)\n"+strings.Join(discharged, "\n")+"\n"), 0o644)
+		fmt.Printf("baseline: %d discharged of %d obligations written\n", len(discharged), nObl)
+	}
+	// print
+	if o.verbose || o.only != "" {
+		for _, r := range reports {
+			fmt.Printf("  [%s] %s (%s %s %.2fs %dB) @%s\n", r.Status, r.Name, r.Result, r.Solver, r.Time, r.Size, r.Pos)
+		}
+		for _, s := range unsupported {
+			fmt.Println("  unmodelled:", s)
+		}
+	}
+	for _, k := range knownHits {
+		fmt.Println(k)
+	}
+	for _, v := range violations {
+		fmt.Println(v)
+	}
+	for _, b := range broken {
+		fmt.Println("BROKEN:", b)
+	}
+	wall := time.Since(t0).Seconds()
+	fmt.Printf("property=%s tier=%s units=%d obligations=%d discharged=%d known=%d violations=%d vacuity-probes=%d load=%.1fs gen=%.1fs solve=%.1fs wall=%.1fs\n",
+		o.prop, o.tier, len(units), nObl, nDis, len(knownHits), len(violations), nVac, tLoad, tGen, tSolve, wall)
+	if o.only == "" {
+		writeEvidence(o, db, reports, funcs, uniq(assumptions), uniq(unsupported), uniq(externs), uniq(contracts), uniq(inlined), uniq(callsites), byBackend, solverTime,
+			nObl, nDis, nVac, len(violations), knownHits, broken, wall)
+	}
+	switch {
+	case len(broken) > 0:
+		return 2
+	case len(violations) > 0:
+		return 1
+	}
+	return 0
+}
+
+func autoKind(k string) bool {
+	switch k {
+	case "callsite", "monitor", "bounds", "overflow", "requires", "contract-shape":
+		return true
+	}
+	return false
+}
+
+func handKind(name string) bool {
+	return strings.Contains(name, "/ensures:") || strings.Contains(name, "/inv-") || strings.HasPrefix(name, "lemma:") || strings.Contains(name, "/decreases:")
+}
+
+func uniq(xs []string) []string {
+	m := map[string]bool{}
+	var out []string
+	for _, x := range xs {
+		if !m[x] {
+			m[x] = true
+			out = append(out, x)
+		}
+	}
+	sort.Strings(out)
+	return out
+}
+
+func writeReplay(dir string, o *options, u *Unit, ob *Obl) string {
+	os.MkdirAll(dir, 0o755)
+	path := filepath.Join(dir, sanitize(trunc(ob.Name, 120))+".json")
+	rec := map[string]interface{}{
+		"property": o.prop, "obligation": ob.Name, "kind": ob.Kind, "unit": u.Name, "position": ob.Pos, "clause": ob.Text,
+		"solver": ob.Solver, "result": ob.Result, "verifier_output": ob.Output, "model": modelSummary(ob.Model),
+	}
+	b, _ := json.MarshalIndent(rec, "", " ")
+	os.WriteFile(path, b, 0o644)
+	return path
+}
+
+// modelSummary keeps the input-level part of a solver model (parameters and entry state).
+func modelSummary(m string) []string {
+	if m == "" {
+		return nil
+	}
+	var out []string
+	re := regexp.MustCompile(`\(define-fun ((?:p_|v_|let_|res_|hv_)[^ ]*) \(\) [^\n]*\n?\s*([^\n]*)\)`)
+	for _, mm := range re.FindAllStringSubmatch(m, 200) {
+		out = append(out, mm[1]+" = "+strings.TrimSpace(mm[2]))
+	}
+	return out
+}
+
+func writeEvidence(o *options, db *ContractDB, reports []oblReport, funcs, assumptions, unsupported, externs, contracts, inlined, callsites []string,
+	byBackend map[string]int, solverTime float64, nObl, nDis, nVac, nViol int, knownHits, broken []string, wall float64) {
+	dir := filepath.Join(o.verif, "evidence")
+	os.MkdirAll(dir, 0o755)
+	var samples []interface{}
+	for i, r := range reports {
+		if i < 6 || r.Status == "VIOLATION" || r.Status == "known-finding" {
+			samples = append(samples, r)
+		}
+	}
+	trusted := []string{"solvers z3 4.8.12 / z3-new 5.1.0 / cvc5 1.0.3", "go/ssa (x/tools v0.29.0) lowering of the source", "govc VC generator"}
+	for _, e := range externs {
+		trusted = append(trusted, "assumed contract: "+e)
+	}
+	stdAssume := []string{
+		"integers are mathematical unless the function is marked 'overflow on' (then every + - * << and narrowing conversion carries an in-range obligation)",
+		"strings are an uninterpreted sort with length/concat axioms; no character-level reasoning",
+		"functions outside the repository write only memory reachable by static type from their pointer-carrying arguments and may call methods of interface arguments (frame assumption)",
+		"no writes to repository types through reflect/unsafe",
+		"panics (explicit, nil dereference, index out of range, failed type assertion) are abnormal exits not covered by postconditions, except where bounds obligations are switched on",
+		"package-level variables that are only assigned in their package initialiser are constants; stdlib error sentinels are constants",
+		"mutexes: code between Lock and Unlock is verified sequentially; interference is modelled only where a monitor invariant is declared",
+	}
+	ev := map[string]interface{}{
+		"property_id": o.prop,
+		"tier":        o.tier,
+		"seed":        o.seed,
+		"level":       "proof",
+		"wall_s":      wall,
+		"violations":  nViol,
+		"assumptions": append(stdAssume, assumptions...),
+		"coverage": map[string]interface{}{
+			"obligations":              nObl,
+			"discharged":               nDis,
+			"checker_cmd":              fmt.Sprintf("/verif/bin/govc check --property %s --tier %s", o.prop, o.tier),
+			"trusted_base":             trusted,
+			"functions_under_contract": funcs,
+			"contracts_used_at_calls":  contracts,
+			"inlined_callees":          inlined,
+			"callsites_enumerated":     callsites,
+			"by_backend":               byBackend,
+			"solver_time_s":            solverTime,
+			"vacuity_probes":           nVac,
+			"known_findings":           knownHits,
+			"broken":                   broken,
+			"unmodelled_features":      unsupported,
+			"contract_files":           db.Files,
+			"samples":                  samples,
+			"all_obligations":          reports,
+			"bounded_standins":         []string{},
+		},
+	}
+	b, _ := json.MarshalIndent(ev, "", " ")
+	os.WriteFile(filepath.Join(dir, o.prop+".json"), b, 0o644)
+}
+
+func runReplay(o *options, args []string) int {
+	if len(args) == 0 {
+		fmt.Fprintln(os.Stderr, "usage: govc replay <file>")
+		return 2
+	}
+	b, err := os.ReadFile(args[0])
+	if err != nil {
+		fmt.Fprintln(os.Stderr, err)
+		return 2
+	}
+	fmt.Println(string(b))
+	return 0
+}
+
+// tryReplay: run the replay driver for the obligation, if one exists. Returns true if a failing
+// input was reproduced on the real code.
+func tryReplay(o *options, p *Prog, u *Unit, ob *Obl, path string) bool {
+	return replayOnRealCode(o, u, ob, path)
+}
